@@ -57,24 +57,26 @@ def r2_letters(ctx):
     fn, arms = _branches(ctx)
     labels = [a[0] for a in arms if a[0] not in (None, '?')]
     sp = ctx.func('map_if', 'segment_if._split_syntax')
-    lst = None
-    for n in ast.walk(sp):
-        if isinstance(n, ast.Compare) and isinstance(n.ops[0], (ast.NotIn, ast.In)) \
-                and isinstance(n.comparators[0], (ast.List, ast.Tuple, ast.Set)):
-            lst = [A.const(x) for x in n.comparators[0].elts]
-            polarity = type(n.ops[0])
-            test = n
-    if lst is None:
-        raise AnalysisError('map_if:segment_if._split_syntax: letter list not found')
     want = set('PRECL')
-    yield Ob('map_if:segment_if._split_syntax letters', set(lst) == want, ctx.floc(sp, test),
-             '' if set(lst) == want else 'accepts letters %s, X12 defines %s' % (sorted(lst), sorted(want)))
-    # a note with an unlisted letter must be dropped (return None) -- it would otherwise reach the evaluator
-    par = A.parent(test)
-    okdrop = isinstance(par, ast.If) and polarity is ast.NotIn and any(
-        isinstance(s, ast.Return) and (s.value is None or A.const(s.value) is None) for s in par.body)
-    yield Ob('map_if:segment_if._split_syntax drops unknown letters', okdrop, ctx.floc(sp, test),
-             '' if okdrop else 'the `not in` test no longer returns None for an unknown letter')
+    # which note letters does _split_syntax let through?  Decided by running the function (constant propagation over its
+    # CFG) on one note per letter; a module-level compiled regex it consults is applied as the constant function it is.
+    import re as _re
+    rx_funcs = {}
+    for n in ctx.mod('map_if').tree.body:
+        if isinstance(n, ast.Assign) and len(n.targets) == 1 and isinstance(n.targets[0], ast.Name) and isinstance(n.value, ast.Call) \
+                and path_of(n.value.func) == 're.compile' and n.value.args and A.is_str(n.value.args[0]) and len(n.value.args) == 1:
+            rx = _re.compile(n.value.args[0].value)
+            for meth in ('match', 'search', 'fullmatch'):
+                rx_funcs['%s.%s' % (n.targets[0].id, meth)] = (lambda t, _m=getattr(rx, meth): (_m(t) is not None) if isinstance(t, str) else None)
+    accepted = set()
+    for letter in 'ABCDEFGHIJKLMNOPQRSTUVWXYZ':
+        if _split(ctx, sp, letter + '0102', rx_funcs) is not None:
+            accepted.add(letter)
+    yield Ob('map_if:segment_if._split_syntax letters', accepted == want, ctx.floc(sp),
+             '' if accepted == want else 'accepts letters %s, X12 defines %s' % (sorted(accepted), sorted(want)))
+    okdrop = not (accepted - want)
+    yield Ob('map_if:segment_if._split_syntax drops unknown letters', okdrop, ctx.floc(sp),
+             '' if okdrop else 'a note with the unknown letter %s is not dropped' % sorted(accepted - want)[0])
     yield Ob('syntax:is_syntax_valid branch labels', set(labels) == want and len(labels) == len(set(labels)),
              ctx.floc(fn), '' if set(labels) == want and len(labels) == len(set(labels))
              else 'branches for %s, X12 defines %s' % (labels, sorted(want)))
@@ -88,28 +90,8 @@ def r2_letters(ctx):
              '' if ok else 'an unknown note letter is not rejected')
     # what _split_syntax returns for notes of 2..6 positions, by constant propagation through the function (loop or
     # comprehension): the letter followed by every two-digit position in order
-    from ..absint import explore
-    g = ctx.cfg(sp)
-
     def split(text):
-        outs = []
-
-        def on_node(nd, env):
-            if nd.kind == 'return':
-                if nd.ast.value is None:
-                    outs.append(None)
-                else:
-                    try:
-                        outs.append(A.ev(nd.ast.value, env))
-                    except A.NotClosed as e:
-                        raise AnalysisError('_split_syntax: returned value not closed: %s' % e)
-
-        def unk(nd, env):
-            raise AnalysisError('_split_syntax: test not closed: %s' % norm(nd.ast))
-        explore(g, {'syntax': text}, on_node=on_node, on_unknown=unk)
-        if len(outs) != 1:
-            raise AnalysisError('_split_syntax: %d results for %r' % (len(outs), text))
-        return outs[0]
+        return _split(ctx, sp, text, rx_funcs)
     bad_t, bad_n = [], []
     for npos in range(2, 7):
         poss = [3 * k + 1 for k in range(npos)]
@@ -125,6 +107,30 @@ def r2_letters(ctx):
              '' if not bad_t else 'note %r is split into %s' % bad_t[0])
     yield Ob('map_if:segment_if._split_syntax reads every position', not bad_n, ctx.floc(sp),
              '' if not bad_n else 'a note with %d positions yields %d' % bad_n[0])
+
+
+def _split(ctx, sp, text, funcs):
+    """the value _split_syntax returns for the note `text`, by constant propagation through its CFG"""
+    from ..absint import explore
+    g = ctx.cfg(sp)
+    outs = []
+
+    def on_node(nd, env):
+        if nd.kind == 'return':
+            if nd.ast.value is None:
+                outs.append(None)
+            else:
+                try:
+                    outs.append(A.ev(nd.ast.value, env, funcs))
+                except A.NotClosed as e:
+                    raise AnalysisError('_split_syntax: returned value not closed: %s' % e)
+
+    def unk(nd, env):
+        raise AnalysisError('_split_syntax: test not closed: %s' % norm(nd.ast))
+    explore(g, {'syntax': text}, funcs=funcs, on_node=on_node, on_unknown=unk)
+    if len(outs) != 1:
+        raise AnalysisError('_split_syntax: %d results for %r' % (len(outs), text))
+    return outs[0]
 
 
 def _returns(stmts):
